@@ -458,3 +458,157 @@ Proof.
     cbn in H. rewrite nth_error_nil_none in H; discriminate.
   - exists 1, 2, 0, W, R. repeat split; try reflexivity; [discriminate|now left].
 Qed.
+
+(* ------------------------------------------------------------------ teardown *)
+(* What makes a destructor's accesses (and the destruction of the members themselves) safe against the object's own
+   thread is the join: everything the joined thread ever did happens-before everything the joining thread does
+   afterwards.  This is the justification of the XTeardown context of the static checker. *)
+Theorem teardown_after_join : forall tr q t u i j a b,
+  wf_trace tr -> nth_error tr q = Some (EJoin t u) ->
+  nth_error tr i = Some a -> thread_of a = u ->
+  nth_error tr j = Some b -> thread_of b = t -> q < j ->
+  hb tr i j.
+Proof.
+  intros tr q t u i j a b [_ Hth] Hq Hi Ha Hj Hb Hqj.
+  destruct (Hth q i (EJoin t u) a Hq Hi) as [_ [Hjoin _]]. cbn in Hjoin. specialize (Hjoin Ha).
+  apply hb_trans with q.
+  - eapply hb_sw with (a := a) (b := EJoin t u); eauto.
+    unfold sw. rewrite Ha, Nat.eqb_refl. now rewrite orb_true_r.
+  - eapply hb_po with (a := EJoin t u) (b := b); eauto; cbn; congruence.
+Qed.
+
+(* ... and without the join nothing orders them: thread 2 (the object's thread) updates the bookkeeping of mutex 0
+   (location 5 = MutexLock::holder_) inside its last critical section; thread 1 (the destructor) destroys the mutex
+   - a write of the same location - without having joined thread 2 and without holding the mutex.  This is
+   ~EventLoopThread after its unlocked read of loop_ returned NULL (findings/C08.md). *)
+Definition unjoined_trace : trace := [EAcq 2 0; EAcc 2 5 W; ERel 2 0; EAcc 1 5 W].
+
+Lemma hb_unjoined_lt3 : forall i j, hb unjoined_trace i j -> j < 3.
+Proof.
+  intros i j H. induction H.
+  - destruct j as [|[|[|[|j]]]]; try lia.
+    + destruct i as [|[|[|i]]]; try lia; cbn in *;
+        injection H0 as <-; injection H1 as <-; cbn in H2; discriminate.
+    + cbn in H1. rewrite nth_error_nil_none in H1. discriminate.
+  - destruct j as [|[|[|[|j]]]]; try lia.
+    + destruct i as [|[|[|i]]]; try lia; cbn in *;
+        injection H0 as <-; injection H1 as <-; cbn in H2; discriminate.
+    + cbn in H1. rewrite nth_error_nil_none in H1. discriminate.
+  - assumption.
+Qed.
+
+Lemma unjoined_wf : wf_trace unjoined_trace.
+Proof.
+  split.
+  - intros n e H. destruct n as [|[|[|[|n]]]]; cbn in H; try (injection H as <-; cbn; reflexivity).
+    rewrite nth_error_nil_none in H; discriminate.
+  - intros i j a b Ha Hb.
+    destruct i as [|[|[|[|i]]]]; cbn in Ha; try (rewrite nth_error_nil_none in Ha; discriminate);
+      injection Ha as <-; repeat split; exact I.
+Qed.
+
+Lemma teardown_without_join_races :
+  exists tr i j, wf_trace tr /\ conflicting tr i j /\ ~ hb tr i j /\ ~ hb tr j i /\
+                 (forall q t u, nth_error tr q <> Some (EJoin t u)).
+Proof.
+  exists unjoined_trace, 1, 3. split; [exact unjoined_wf|]. split.
+  - exists 2, 1, 5, W, W. repeat split; try reflexivity; [discriminate|now left].
+  - split; [|split].
+    + intros H. apply hb_unjoined_lt3 in H. lia.
+    + intros H. apply hb_lt in H. lia.
+    + intros q t u H. destruct q as [|[|[|[|q]]]]; cbn in H; try discriminate.
+      rewrite nth_error_nil_none in H; discriminate.
+Qed.
+
+(* the static teardown rule: every synchronisation member a destructor destroys while the object's thread may still
+   use it (no join, or a join conditional on a member the thread itself writes) is a recorded finding *)
+Theorem teardown_checked : forall T S wv, discipline_ok S T wv = true ->
+  forall m d f ln, In m S -> m_dtor m = Some d -> In (f, ln) (d_destroys d) ->
+    mem f (unjoined_uses (thread_roots T S (m_class m)) (d_join d)) = true ->
+    exists w, In w wv /\ v_class w = m_class m /\ v_site w = m_name m /\ v_what w = f /\ v_kind w = "destroy"%string.
+Proof.
+  intros T S wv Hok m d f ln Hm Hd Hf Hbad.
+  assert (Hv : In (mkViol (m_class m) (m_name m) f "destroy") (violations_raw T S)).
+  { unfold violations_raw. repeat (apply in_or_app; right).
+    unfold teardown_violations. apply in_flat_map. exists m; split; [exact Hm|].
+    rewrite Hd. apply in_flat_map. exists (f, ln); split; [exact Hf|].
+    cbn [fst]. rewrite Hbad. left; reflexivity. }
+  destruct (discipline_ok_spec _ _ _ Hok _ Hv) as [w [Hw Heq]].
+  apply viol_eqb_eq in Heq. cbn in Heq. destruct Heq as [E1 [E2 [E3 E4]]].
+  exists w; repeat split; auto.
+Qed.
+
+(* the fail-fast clause of the static checker: a method with the contract `loop failfast` has the thread check as its
+   first statement (so that [confined_fail_fast] applies to its body), or that is a recorded finding *)
+Theorem failfast_checked : forall T S wv, discipline_ok S T wv = true ->
+  forall m, In m S -> contract_of T (m_class m) (m_name m) = Some (CLoop FFDirect) ->
+    m_check_first m = true \/
+    exists w, In w wv /\ v_class w = m_class m /\ v_site w = m_name m /\ v_kind w = "nofailfast"%string.
+Proof.
+  intros T S wv Hok m Hm Hc.
+  destruct (m_check_first m) eqn:Hcf; [left; reflexivity|right].
+  assert (Hv : In (mkViol (m_class m) (m_name m) "assertInLoopThread" "nofailfast") (violations_raw T S)).
+  { unfold violations_raw. apply in_or_app; right. apply in_or_app; right. apply in_or_app; left.
+    unfold failfast_violations. apply in_flat_map. exists (m, CLoop FFDirect); split.
+    - unfold roots. apply in_flat_map. exists m; split; [exact Hm|]. rewrite Hc. left; reflexivity.
+    - rewrite Hcf. left; reflexivity. }
+  destruct (discipline_ok_spec _ _ _ Hok _ Hv) as [w [Hw Heq]].
+  apply viol_eqb_eq in Heq. cbn in Heq. destruct Heq as [E1 [E2 [E3 E4]]].
+  exists w; repeat split; auto.
+Qed.
+
+(* ------------------------------------------------------------------ use after release (F-4) *)
+(* thread 1 (the caller of quit()) stores the exit flag (atomic location 9) and afterwards still uses the object
+   (location 5 = the wake-up descriptor, read by wakeup()); thread 2 (the owner) loads the flag, leaves its loop and
+   destroys the object (write of location 5).  The atomic store orders what PRECEDES it before the owner's teardown,
+   not what follows it. *)
+Definition useafter_trace : trace := [EAtomW 1 9; EAtomR 2 9; EAcc 2 5 W; EAcc 1 5 R].
+
+Lemma hb_useafter_not_2_3 : forall i j, hb useafter_trace i j -> ~ (i = 2 /\ j = 3).
+Proof.
+  intros i j H. induction H; intros [-> ->].
+  - cbn in *. injection H0 as <-. injection H1 as <-. cbn in H2. discriminate.
+  - cbn in *. injection H0 as <-. injection H1 as <-. cbn in H2. discriminate.
+  - apply hb_lt in H, H0. lia.
+Qed.
+
+Lemma useafter_wf : wf_trace useafter_trace.
+Proof.
+  split.
+  - intros n e H. destruct n as [|[|[|[|n]]]]; cbn in H; try (injection H as <-; cbn; exact I).
+    rewrite nth_error_nil_none in H; discriminate.
+  - intros i j a b Ha Hb.
+    destruct i as [|[|[|[|i]]]]; cbn in Ha; try (rewrite nth_error_nil_none in Ha; discriminate);
+      injection Ha as <-; repeat split; exact I.
+Qed.
+
+Lemma use_after_release_races :
+  exists tr i j, wf_trace tr /\ conflicting tr i j /\ ~ hb tr i j /\ ~ hb tr j i /\ hb tr 0 2.
+Proof.
+  exists useafter_trace, 2, 3. split; [exact useafter_wf|]. split.
+  - exists 2, 1, 5, W, R. repeat split; try reflexivity; [discriminate|now left].
+  - split; [|split].
+    + intros H. exact (hb_useafter_not_2_3 _ _ H (conj eq_refl eq_refl)).
+    + intros H. apply hb_lt in H. lia.
+    + apply hb_trans with 1.
+      * eapply hb_sw with (a := EAtomW 1 9) (b := EAtomR 2 9); [lia|reflexivity|reflexivity|reflexivity].
+      * eapply hb_po with (a := EAtomR 2 9) (b := EAcc 2 5 W); [lia|reflexivity|reflexivity|reflexivity].
+Qed.
+
+(* the static rule: every member an any-thread method still uses after storing an exit flag is a recorded finding *)
+Theorem useafter_checked : forall T S wv, discipline_ok S T wv = true ->
+  forall m g f, In m S -> contract_of T (m_class m) (m_name m) = Some CAny ->
+    In (m_class m, g) (t_exitflags T) -> In f (assoc_tail g (m_tails m)) ->
+    exists w, In w wv /\ v_class w = m_class m /\ v_site w = m_name m /\ v_what w = f /\ v_kind w = "useafter"%string.
+Proof.
+  intros T S wv Hok m g f Hm Hc Hg Hf.
+  assert (Hv : In (mkViol (m_class m) (m_name m) f "useafter") (violations_raw T S)).
+  { unfold violations_raw. do 4 (apply in_or_app; right). apply in_or_app; left.
+    unfold useafter_violations. apply in_flat_map. exists (m, CAny); split.
+    - unfold roots. apply in_flat_map. exists m; split; [exact Hm|]. rewrite Hc. left; reflexivity.
+    - apply in_flat_map. exists (m_class m, g); split; [exact Hg|].
+      cbn [fst snd]. unfold seqb. rewrite String.eqb_refl. apply in_map_iff. exists f; split; [reflexivity|exact Hf]. }
+  destruct (discipline_ok_spec _ _ _ Hok _ Hv) as [w [Hw Heq]].
+  apply viol_eqb_eq in Heq. cbn in Heq. destruct Heq as [E1 [E2 [E3 E4]]].
+  exists w; repeat split; auto.
+Qed.
